@@ -100,15 +100,24 @@ def enumPtr (ettl : Nat) (stype : String) : Rec :=
   { name := Gen.serviceTypeEnumerationName, type := Gen.typePtr, class_ := Svc.clsShared.1, unique := Svc.clsShared.2,
     ttl := ettl, created := 0, rdata := .ptr stype }
 
+/-- successive `dict.update`s into an empty dict -/
+def mergeAll (ds : List DictRS) : DictRS := ds.foldl (dictUpdate lower) []
+
+/-- one iteration of `_add_service_type_enumeration_query_answers` -/
+def enumEntry (ettl : Nat) (known : List Rec) (t : String) : DictRS :=
+  if suppresses lower known (enumPtr ettl t) then [] else [(enumPtr ettl t, [])]
+
 /-- `_add_service_type_enumeration_query_answers` -/
 def answerEnum (ettl : Nat) (known : List Rec) (types : List String) : DictRS :=
-  types.foldl (fun d t => if suppresses lower known (enumPtr ettl t) then d else dictSet lower d (enumPtr ettl t) []) []
+  mergeAll lower (types.map (enumEntry lower ettl known))
+
+/-- one iteration of `_add_pointer_answers` -/
+def pointerEntry (known : List Rec) (s : Svc) : DictRS :=
+  if suppresses lower known s.ptr then [] else [(s.ptr, recSet lower ([s.srv, s.txt] ++ s.an lower))]
 
 /-- `_add_pointer_answers` -/
 def answerPointer (known : List Rec) (svcs : List Svc) : DictRS :=
-  svcs.foldl (fun d s =>
-    if suppresses lower known s.ptr then d
-    else dictSet lower d s.ptr (recSet lower ([s.srv, s.txt] ++ s.an lower))) []
+  mergeAll lower (svcs.map (pointerEntry lower known))
 
 /-- body of the loop of `_add_address_answers` for one service -/
 def addressEntries (known : List Rec) (qtype : Nat) (s : Svc) : DictRS :=
@@ -124,7 +133,7 @@ def addressEntries (known : List Rec) (qtype : Nat) (s : Svc) : DictRS :=
 
 /-- `_add_address_answers` -/
 def answerAddress (known : List Rec) (qtype : Nat) (svcs : List Svc) : DictRS :=
-  svcs.foldl (fun d s => dictUpdate lower d (addressEntries lower known qtype s)) []
+  mergeAll lower (svcs.map (addressEntries lower known qtype))
 
 /-- `_answer_question` -/
 def Strategy.answer (ettl : Nat) (known : List Rec) : Strategy → DictRS
@@ -162,17 +171,20 @@ def respond (ettl : Nat) (reg : Registry) (msgs : List Msg) : Except PyExc (Opti
   | .ok [] => .ok (none, reg)
   | .ok sts =>
     let known := knownOf msgs
-    let m := sts.foldl (fun acc st => dictUpdate lower acc (st.answer lower ettl known)) []
+    let m := mergeAll lower (sts.map (fun st => st.answer lower ettl known))
     let reg' := { reg with services := reg.services.map (fun s => sts.foldl (fun s st => st.warm lower known s) s) }
     .ok (some m, reg')
+
+/-- `if additional not in sending: out.add_additional_answer(additional); sending.add(additional)` -/
+def addAdditional (keys acc : List Rec) (x : Rec) : List Rec :=
+  if (keys ++ acc).any (fun o => o.beq lower x) then acc else acc ++ [x]
 
 /-- `_add_answers_additionals`: answers in name order (stable), each additional once and never if it is an
 answer.  Returns (answers, additionals). -/
 def packetize (d : DictRS) : List Rec × List Rec :=
   let keys := d.map (·.1)
   let sorted := d.mergeSort (fun a b => decide (a.1.name ≤ b.1.name))
-  let adds := sorted.foldl (fun acc p =>
-    p.2.foldl (fun acc x => if (keys ++ acc).any (fun o => o.beq lower x) then acc else acc ++ [x]) acc) []
+  let adds := sorted.foldl (fun acc p => p.2.foldl (addAdditional lower keys) acc) []
   (sorted.map (·.1), adds)
 
 end
